@@ -30,7 +30,7 @@ enum { P_PATH_PROCESS, P_PATH_EVAL, P_PATH_PUTCHAR_IRQ, P_PATH_PUTCHAR_THR, P_FO
        P_QUOTED, P_LINE_79, P_EVAL_LONGER_THAN_RING, P_EVAL_MULTI_LINE, P_YIELDING_CMD, P_SLEEPING_CMD,
        P_INPUT_WHILE_CMD_RUNS, P_REGISTER_REFUSED, P_UNKNOWN_LINE, P_EMPTY_LINE, P_ARGS_JUDGED,
        P_LEADING_SPACE_LINE, P_FAILING_CMD, P_BUILTIN, P_CMD_DIRTIED_SCRATCH,
-       P_FINALE_QUEUE_EXACTLY_FULL };
+       P_FINALE_QUEUE_EXACTLY_FULL, P_CONSOLE_IRQ_NESTED_IN_TICK };
 static const char *const probe_names[] = {
 	"path_console_process", "path_console_eval", "path_putchar_irq", "path_putchar_thread",
 	"line_with_exactly_four_arguments", "tokeniser_stopped_at_four_arguments", "quoted_argument",
@@ -38,7 +38,8 @@ static const char *const probe_names[] = {
 	"sleeping_command_ran", "input_arrived_while_command_running", "registration_refused_table_full",
 	"unknown_command_line", "empty_line", "arguments_judged", "line_with_leading_space_or_quote",
 	"failing_command_ran", "builtin_command_line", "command_stored_state_in_scratch",
-	"last_newline_followed_by_exactly_full_wakeup_queue", NULL };
+	"last_newline_followed_by_exactly_full_wakeup_queue",
+	"console_interrupt_nested_inside_another_source", NULL };
 
 /* ---- commands ---------------------------------------------------------------- */
 
@@ -713,7 +714,7 @@ static bool ring_full_producer_side(void)
  * on the address that a request's first RMW (the free-counter decrement) targets.
  */
 static uintptr_t wq_counter_addr;
-static uint32_t wq_accepted, wq_main_claims;
+static uint32_t wq_accepted, wq_main_claims, wq_inflight;	/* inflight: calls that may already hold a slot */
 static int mainloop_ctx_id;
 
 static uint32_t wq_occupancy(void)
@@ -723,7 +724,8 @@ static uint32_t wq_occupancy(void)
 	/* the main loop's own claims (characters delivered from the main context) hit the same
 	 * counter from the same context: they are not releases */
 	uint32_t released = simrt_watch_count(mainloop_ctx_id, 0) - wq_main_claims;
-	return released >= wq_accepted ? 0 : wq_accepted - released;
+	uint32_t held = wq_accepted + wq_inflight;	/* a call interrupted mid-way may already own a slot */
+	return released >= held ? 0 : held - released;
 }
 
 static bool feed_one(void)
@@ -735,7 +737,7 @@ static bool feed_one(void)
 			simrt_spin_hint();
 	}
 	char ch = stream[feed_pos++];
-	wq_accepted++;
+	wq_inflight++;
 	if (wq_counter_addr && simrt_self() == mainloop_ctx_id && simrt_irq_depth() == 0)
 		wq_main_claims++;
 	if (mode == M_THR) {
@@ -753,6 +755,8 @@ static bool feed_one(void)
 	if (!wq_counter_addr)
 		simrt_mark_rmw();
 	console_putchar(con, ch);
+	wq_inflight--;
+	wq_accepted++;	/* room was ensured, so the console's own request was accepted */
 	/* ringbuf_put has no RMW: the first one is the wake-up queue's free-counter decrement */
 	if (!wq_counter_addr && (wq_counter_addr = simrt_first_rmw()))
 		simrt_watch_addr(wq_counter_addr);
@@ -783,7 +787,9 @@ static void tick_burst(void)
 			return;
 		if (!wq_counter_addr)
 			simrt_mark_rmw();
+		wq_inflight++;
 		bool ok = fibre_run_atomic(ticker[sim_choose(2)]);
+		wq_inflight--;
 		if (ok)
 			wq_accepted++;
 		if (!wq_counter_addr && (wq_counter_addr = simrt_first_rmw()))
@@ -791,13 +797,30 @@ static void tick_burst(void)
 	}
 }
 
+static int in_feed;	/* the (single) console producer is inside its delivery code */
+
 static void irq_handler(int depth)
 {
-	(void)depth;
 	sim_fault(F_IRQ);
-	if (sim_choose(2))
+	if (depth == 1 && !in_feed && feed_pos < stream_len && stream_len - feed_pos <= 3 && sim_choose(2)) {
+		/* the end of the input is about to arrive: another source's handler is running when it
+		 * does (the following interrupts come densely and nest inside this one) */
+		simrt_irq_densify(1 + sim_choose(4));
 		tick_burst();
+	} else if (sim_choose(2))
+		tick_burst();
+	/* interrupts nest to depth 2, but the ring has ONE producer: a handler that interrupted
+	 * the UART handler itself is some other source (a tick) and delivers no characters */
+	if (in_feed)
+		return;
+	if (depth > 1)
+		sim_probe(P_CONSOLE_IRQ_NESTED_IN_TICK);
+	in_feed++;
 	uint32_t n = 1 + sim_choose(sim_choose(4) ? 3 : 20);
+	/* a UART interrupt that preempts another source's handler sometimes brings the end of the
+	 * input: the last newline's wake-up is then requested from inside somebody else's request */
+	if (depth > 1 && stream_len - feed_pos <= 6 && sim_choose(2))
+		n = stream_len - feed_pos;
 	bool final_alone = false;
 	for (uint32_t i = 0; i < n && feed_pos < stream_len; i++) {
 		if (feed_pos == stream_len - 1 && want_finale) {
@@ -815,14 +838,18 @@ static void irq_handler(int depth)
 		 * keep firing while the main loop drains it (the console's request is the only one
 		 * that names the console) */
 		finale_done = true;
-		while (wq_occupancy() < 8)
-			if (fibre_run_atomic(ticker[sim_choose(2)]))
-				wq_accepted++;
-			else
+		while (wq_occupancy() < 8) {
+			wq_inflight++;
+			bool ok = fibre_run_atomic(ticker[sim_choose(2)]);
+			wq_inflight--;
+			if (!ok)
 				break;
+			wq_accepted++;
+		}
 		simrt_irq_densify(1 + sim_choose(6));
 		sim_probe(P_FINALE_QUEUE_EXACTLY_FULL);
 	}
+	in_feed--;
 }
 
 static void feeder_ctx(void *arg)
@@ -897,8 +924,9 @@ static void run(void)
 	ticker_runs = 0;
 	finale_done = false;
 	want_finale = false;
+	in_feed = 0;
 	wq_counter_addr = 0;
-	wq_accepted = wq_main_claims = 0;
+	wq_accepted = wq_main_claims = wq_inflight = 0;
 	mainloop_ctx_id = 0;
 	gen_stream(1 + sim_choose(6));
 	sim_evs("stream", stream);
@@ -911,7 +939,7 @@ static void run(void)
 		sim_probe(P_PATH_PUTCHAR_IRQ);
 		want_finale = sim_choose(2);
 		simrt_mode(SIMRT_IRQ);
-		simrt_irq_handler(irq_handler, 1);
+		simrt_irq_handler(irq_handler, 2);
 		/* enough interrupts to deliver the stream; gaps from back-to-back to far apart */
 		uint32_t n = 32;
 		simrt_irq_plan(n, 1 + sim_choose(sim_choose(2) ? 40 : 400));
